@@ -253,7 +253,7 @@ def oracle_broken(model, wire=None):
         for pe in nd.p_edges:
             for cons in pe.cons_sets:
                 for op in cons.options:
-                    cnt = [bool(op.value), op.tag is not None, op.fn is not None].count(True)
+                    cnt = [op.value is not None, op.tag is not None, op.fn is not None].count(True)       # 'is set' = the element is present (also when empty)
                     if cnt != 1:
                         broken.append('option-shape')
         for k in nd.sign_cons:
@@ -310,6 +310,15 @@ def corruptions(model, rng, limit):
                         o.fn = bny.UserFnCall()
                         o.fn.fn_id = '$eq'
                         o.fn.args = []
+                    def empty_value_too(m, i=i, ei=ei, ci=ci, oi=oi):
+                        # a Value element that is present but EMPTY next to a Tag / UserFn: two of the three are set
+                        o = m.nodes[i].p_edges[ei].cons_sets[ci].options[oi]
+                        if o.value is None:
+                            o.value = b''
+                        else:
+                            o.value = b''
+                            o.tag = 1
+                    out += [(f'node{i}.pedge{ei}.cons{ci}.opt{oi}.empty-value-and-another', empty_value_too)]
                     out += [(f'node{i}.pedge{ei}.cons{ci}.opt{oi}.clear', clear), (f'node{i}.pedge{ei}.cons{ci}.opt{oi}.two', extra_tag),
                             (f'node{i}.pedge{ei}.cons{ci}.opt{oi}.three', all3)]
     out.append(('start_id=out', lambda m: setattr(m, 'start_id', n + 1)))
